@@ -87,6 +87,8 @@ def invoke(exe, text, flags, out, src, tmp, idx):
             args.append("-p")
         elif r == "P":
             pfile = os.path.join(tmp, "out%d.raw" % idx)
+            with open(pfile, "wb") as f:      # an existing, longer file at the target must be replaced
+                f.write(b"\xee" * 9000)
             args += ["-P", pfile]
         elif r == "o":
             pfile = os.path.join(tmp, "obj%d" % idx)
